@@ -181,6 +181,42 @@ def c11_churn(rng, sid, nscen):
     return out
 
 
+def c11_samefilter(rng, sid, nscen):
+    """several share groups (and a non-shared subscription) on ONE filter, the same client in several of them: every
+    publication owes one copy per group, whatever the other groups on that filter do"""
+    out = []
+    for i in range(nscen):
+        f = rng.choice(["t", "t/#", "+", "t/+", "#"])
+        topic = {"t": "t", "t/#": rng.choice(["t", "t/u"]), "+": "t", "t/+": "t/u", "#": rng.choice(["t", "t/u/v"])}[f]
+        groups = ["g1", "g2", "g3"][:rng.choice([2, 2, 3])]
+        vers = {1: 5, 2: 5, 3: rng.choice([4, 5])}
+        steps = [connect(k, "m%d" % k, vers[k]) for k in (1, 2, 3)] + [connect(9, "pub", rng.choice([4, 5]))]
+        member = {g: set() for g in groups}
+        for g in groups:                      # every group gets at least one member; a client may sit in several groups
+            for k in rng.sample([1, 2, 3], rng.choice([1, 1, 2, 3])):
+                member[g].add(k)
+                steps.append(sub(k, [{"n": "$share/%s/%s" % (g, f), "qos": rng.randrange(3)}], subid=rng.choice([0, 3]) if vers[k] == 5 else 0))
+        if rng.random() < 0.5:
+            steps.append(sub(rng.choice([1, 2, 3]), [{"n": f, "qos": rng.randrange(3)}]))
+        n = 0
+        for rnd in range(rng.randrange(1, 4)):
+            for _ in range(rng.randrange(1, 4)):
+                n += 1
+                steps.append(pub(9, topic, rng.randrange(3), "h%d" % n))
+            steps.append(BARRIER)
+            g = rng.choice(groups)            # somebody leaves one group; the others are not affected
+            if member[g]:
+                k = rng.choice(sorted(member[g]))
+                steps.append({"op": "unsubscribe", "k": k, "names": ["$share/%s/%s" % (g, f)]})
+                member[g].discard(k)
+        for _ in range(2):
+            n += 1
+            steps.append(pub(9, topic, rng.randrange(3), "h%d" % n))
+        steps.append(BARRIER)
+        out.append({"id": "%s-same%d" % (sid, i), "cfg": {"mode": rng.choice(["overlap", "onlyonce"]), "qq0": True}, "steps": steps})
+    return out
+
+
 def c07_retained(rng, sid, nscen):
     """histories of retained publishes / clears (also through a topic alias), then subscriptions of every shape
     (filter, QoS, Retain Handling, RAP, version, shared) including re-subscription"""
@@ -299,9 +335,27 @@ def pad_for(topic, qos, target, v5=True):
 def c13_limits(rng, sid, nscen):
     out = []
     for i in range(nscen):
-        fam = "ABCDE"[i % 5]
+        fam = "ABCDEF"[i % 6]
         cfg = {"mode": "overlap", "qq0": True}
         steps = []
+        if fam == "F":      # outbound: Maximum Packet Size AND Topic Alias Maximum declared by the same client (an alias changes the size)
+            M = rng.choice([24, 30, 40, 127, 128, 129])
+            qs = rng.randrange(3)
+            steps = [connect(1, "s", 5, maxpkt=M, aliasmax=rng.choice([1, 2, 5])), sub(1, [{"n": "m/#", "qos": qs}]), connect(2, "p", rng.choice([4, 5])),
+                     connect(3, "free", 5), sub(3, [{"n": "m/#", "qos": 2}])]
+            n = 0
+            for d in [rng.choice([0, -1, -2, -3]), rng.choice([0, -1, -2, -3, -4, 1]), rng.choice([0, -1, -5, 2]), 0, -1]:
+                n += 1
+                q = rng.randrange(3)
+                fq = min(q, qs)
+                topic = rng.choice(["m/t", "m/t", "m/u", "m/a-long-topic-name"])
+                plen = pad_for(topic, fq, M + d)
+                if plen is None or plen < 3:
+                    continue
+                steps.append(pub(2, topic, q, "z%d" % n, pad=plen, fq=fq))
+                steps.append(BARRIER)
+            out.append({"id": "%s-lim%s%d" % (sid, fam, i), "cfg": cfg, "steps": steps})
+            continue
         if fam == "A":      # outbound: client's Maximum Packet Size
             M = rng.choice([24, 40, 127, 128, 129, 200])
             qs = rng.randrange(3)
